@@ -130,9 +130,9 @@ theorem Add.comp {f g : V → V} (hf : Add f) (hg : Add g) : Add (fun x => f (g 
 /-! ### 1. the environment -/
 
 /-- **the maps of the environment are additive on vectors of equal length** (the uninterpreted leaves —
-dense einsum blocks, Toeplitz operators with batched bands, observation matrices, opaque operators — are linear
-maps; they are homogeneous by `Env.hom`; Toeplitz leaves with an un-batched band are interpreted by the kernel,
-additive by `toepLeaf_vadd`).  On the input side `vadd x y` is `zipWith (· + ·) x y` (equal lengths, `vadd_eq_zipWith`); on the output
+dense einsum blocks, observation matrices, opaque operators, Toeplitz operators with a rank-0 band array — are linear
+maps; they are homogeneous by `Env.hom`; Toeplitz leaves with a band array `bs ++ [K]`, batched or not, are
+interpreted by the kernel, additive by `toepLeaf_vadd`).  On the input side `vadd x y` is `zipWith (· + ·) x y` (equal lengths, `vadd_eq_zipWith`); on the output
 side `vadd` is used because nothing is assumed of the lengths `E.f u` returns (when `E.f u x` and `E.f u y` have
 the same length — e.g. for an environment of matrices, `matEnv_add` — it is `zipWith (· + ·)` again). -/
 structure EnvAdd (E : Env) : Prop where
@@ -324,7 +324,7 @@ theorem polTMap_vadd (k : StokesKind) (n : Nat) : Add (polTMap k n) := fun y y' 
 theorem rowOf_vadd (l : Nat) (x y : V) (b j : Nat) :
     rowOf l (vadd x y) b j = rowOf l x b j + rowOf l y b j := getD_vadd x y _
 
-/-- the Toeplitz kernel of a leaf is additive, for every pair of input lists -/
+/-- the Toeplitz kernel of a leaf is additive, for every pair of input lists (and every band array, batched or not) -/
 theorem toepLeaf_vadd (K : Nat) (vals : Tensor Rat) (li lo : LeafS) : Add (toepLeaf K vals li lo) := fun x y => by
   unfold toepLeaf
   simp only []
